@@ -52,7 +52,51 @@ const (
 	bPanic    = 2
 	bBlock    = 3 // OnStart: signal arrives while the hook waits for its context, returns ctx.Err(); OnShutdown: waits for the shutdown deadline; OnReady: does not come back before Start has returned
 	bCancelOK = 4 // OnStart only: the stop signal arrives during the hook, the hook still succeeds
+
+	// further ways to panic (the model sees them all as `panic`: containment is promised for any value)
+	bPanicErr     = 5  // panic(error)
+	bPanicCustom  = 6  // panic(value of a custom type)
+	bPanicNilPtr  = 7  // nil pointer dereference (runtime.Error)
+	bPanicNilMap  = 8  // write to a nil map (runtime.Error)
+	bPanicIndex   = 9  // slice index out of range (runtime.Error)
+	bPanicDivZero = 10 // integer divide by zero (runtime.Error)
+	bPanicAssert  = 11 // failed type assertion (runtime.Error)
 )
+
+var panicKinds = []int{bPanic, bPanicErr, bPanicCustom, bPanicNilPtr, bPanicNilMap, bPanicIndex, bPanicDivZero, bPanicAssert}
+
+func isPanic(b int) bool { return b == bPanic || (b >= bPanicErr && b <= bPanicAssert) }
+
+type customPanic struct{ why string }
+
+var (
+	zeroInt  = 0
+	nilMap   map[string]int
+	emptyInt []int
+	anyStr   any = "not an int"
+)
+
+// panicWith panics the way behaviour b says: with a plain value, or by a genuine runtime error.
+func panicWith(b int, where string) {
+	switch b {
+	case bPanicErr:
+		panic(fmt.Errorf("%s hook panic (injected error value)", where))
+	case bPanicCustom:
+		panic(customPanic{where})
+	case bPanicNilPtr:
+		var p *customPanic
+		_ = p.why
+	case bPanicNilMap:
+		nilMap[where] = 1
+	case bPanicIndex:
+		_ = emptyInt[len(emptyInt)+zeroInt]
+	case bPanicDivZero:
+		_ = 1 / zeroInt
+	case bPanicAssert:
+		_ = anyStr.(int)
+	}
+	panic(where + " hook panic (injected)")
+}
 
 // listen faults
 const (
@@ -112,6 +156,13 @@ func (sc *Scenario) pairAt(i int) bool {
 		return false
 	}
 	a, b := sc.Rounds[i], sc.Rounds[i+1]
+	for _, rd := range []Round{a, b} {
+		for k, x := range rd.Beh {
+			if k < sc.NReload && x == bBlock {
+				return false // the stop signal arrives inside that hook
+			}
+		}
+	}
 	return a.Pair && !(a.Trig == 1 && b.Trig == 1) && a.CancelAt < 0 && b.CancelAt < 0 && (i == 0 || !sc.pairAt(i-1))
 }
 
@@ -327,6 +378,8 @@ type runner struct {
 	pairDone  chan struct{}
 
 	logBuf lockedBuf // what the application's logger has written
+
+	drainPending atomic.Bool // the drainer has requests to release and has not released them all yet
 
 	abandoned atomic.Bool   // the case hit its deadline: its goroutines must not touch anything process-wide any more
 	abandonCh chan struct{} // closed together with `abandoned`
@@ -567,6 +620,12 @@ func (r *runner) drainer() {
 	if len(ds) == 0 || r.sc.hasBlockShut() {
 		return
 	}
+	select {
+	case <-r.reqs[ds[0]].entered:
+	default:
+		return // the requests were never sent (signal during start-up)
+	}
+	r.drainPending.Store(true)
 	for {
 		if r.started() {
 			return
@@ -584,6 +643,7 @@ func (r *runner) drainer() {
 		}
 		r.releaseReq(k, true)
 	}
+	r.drainPending.Store(false)
 }
 
 var gidRe = regexp.MustCompile(`^goroutine (\d+) `)
@@ -687,22 +747,43 @@ func (r *runner) reloadHook(i int) func(context.Context) error {
 				if prog {
 					select {
 					case <-r.startDone:
-					case <-time.After(20 * time.Second):
+					case <-r.abandonCh:
 					}
 				}
 			}
 		}
 		b := r.behOf(round, i)
+		var blockErr error
+		if b == bBlock {
+			// the hook waits for its context (a config fetch that hangs): the stop signal arrives while it
+			// does, and the hook gives up with ctx.Err(). Started by SIGHUP it runs on the goroutine of Start:
+			// if its context never ended, Start would never get to the shutdown sequence.
+			r.signal()
+			select {
+			case <-ctx.Done():
+				blockErr = ctx.Err()
+			case <-r.abandonCh:
+				blockErr = errInjected
+			}
+			if prog {
+				select {
+				case <-r.startDone:
+				case <-r.abandonCh:
+				}
+			}
+		}
 		r.ev(fmt.Sprintf("L %d %d", round, i))
-		last := i == r.sc.NReload-1 || b == bErr || b == bPanic
+		last := i == r.sc.NReload-1 || b == bErr || b == bBlock || isPanic(b)
 		if last && !prog && round >= 0 && round < len(r.roundDone) {
 			close(r.roundDone[round])
 		}
-		switch b {
-		case bErr:
+		switch {
+		case b == bErr:
 			return errInjected
-		case bPanic:
-			panic("reload hook panic (injected)")
+		case b == bBlock:
+			return blockErr
+		case isPanic(b):
+			panicWith(b, "reload")
 		}
 		return nil
 	}
@@ -923,8 +1004,8 @@ func (r *runner) build() error {
 				r.signal()
 			}
 			r.ev(fmt.Sprintf("S %d", i))
-			if b == bPanic {
-				panic("start hook panic (injected)")
+			if isPanic(b) {
+				panicWith(b, "start")
 			}
 			return err
 		})
@@ -939,10 +1020,10 @@ func (r *runner) build() error {
 			if r.readyLeft.Add(-1) == 0 {
 				close(r.readyAll) // every OnReady hook has been entered
 			}
-			switch b {
-			case bPanic:
-				panic("ready hook panic (injected)")
-			case bBlock:
+			switch {
+			case isPanic(b):
+				panicWith(b, "ready")
+			case b == bBlock:
 				// a hook that does not come back (a long warm-up): fire-and-forget means that nothing waits for it
 				select {
 				case <-r.startDone:
@@ -967,8 +1048,8 @@ func (r *runner) build() error {
 				<-ctx.Done()
 			}
 			r.ev(fmt.Sprintf("H %d", i))
-			if b == bPanic {
-				panic("shutdown hook panic (injected)")
+			if isPanic(b) {
+				panicWith(b, "shutdown")
 			}
 		})
 	}
@@ -983,8 +1064,8 @@ func (r *runner) build() error {
 		a.OnStop(func() {
 			r.ev(fmt.Sprintf("p %d %s", i, r.probes2()))
 			r.ev(fmt.Sprintf("P %d", i))
-			if b == bPanic {
-				panic("stop hook panic (injected)")
+			if isPanic(b) {
+				panicWith(b, "stop")
 			}
 		})
 	}
@@ -1165,6 +1246,11 @@ func (r *runner) run() obsT {
 	if o.Discard == "" && stallEpoch.Load() != epoch0 {
 		o.Discard = "the machine stalled during the case (scheduling gap > 400 ms)"
 	}
+	if o.Discard == "" && r.drainPending.Load() && (r.res == 0 || r.res == 3) {
+		// Start went through the drain and returned while the drainer still held requests it was to release
+		// as soon as the listener closed: the drainer was late (or starved), the case says nothing
+		o.Discard = "timing could not be forced (the drainer did not get to release its requests during the drain)"
+	}
 	if o.Discard == "" && !r.timingForced() {
 		o.Discard = "timing could not be forced (environment late against a 1 s budget)"
 	}
@@ -1297,8 +1383,8 @@ func (r *runner) controller() {
 			select {
 			case <-r.roundDone[i]:
 			case <-r.startDone:
-			case <-time.After(10 * time.Second):
-				r.discard = "SIGHUP round did not complete"
+			case <-r.abandonCh:
+				// Start is stuck inside the round: the case deadline has made that the observation
 			}
 			if sc.pairAt(i) {
 				// the first hook of this round has started the programmatic round i+1
@@ -1325,8 +1411,7 @@ func (r *runner) controller() {
 				select {
 				case <-r.roundDone[i+1]:
 				case <-r.startDone:
-				case <-time.After(10 * time.Second):
-					r.discard = "SIGHUP round did not complete"
+				case <-r.abandonCh:
 				}
 				if !r.started() && !r.waitParkedInSelect() {
 					r.discard = "could not see the Start goroutine back in its select loop"
@@ -1384,7 +1469,7 @@ func emit(id string, sc *Scenario, o obsT, st *hx.Stats) string {
 		if sc.needsSerial() {
 			st.Count("serial_phase")
 		}
-		names := []string{"ok", "err", "panic", "block", "cancelok"}
+		names := []string{"ok", "err", "panic", "block", "cancelok", "panic_error", "panic_custom", "panic_nilptr", "panic_nilmap", "panic_index", "panic_divzero", "panic_assert"}
 		for kind, xs := range map[string][]int{"start": sc.Starts, "ready": sc.Readies, "shut": sc.Shuts, "stop": sc.Stops} {
 			st.Count(fmt.Sprintf("n_%s_%d", kind, min(len(xs), 4)))
 			for _, b := range xs {
